@@ -7,6 +7,9 @@ Path-insensitive forward worklist fixpoint over basic blocks; every lattice has 
 from x86 import G64, PARENT, WIDTH, CALLEE_SAVED, CALLER_SAVED, NORETURN, vec_of
 
 TOP = ("top",)
+M64 = (1 << 64) - 1
+HIGH32 = 0xFFFFFFFF00000000
+NOBITS = (0, False)
 PCREL = ("R_X86_64_PC32", "R_X86_64_PLT32", "R_X86_64_GOTPCREL", "R_X86_64_GOTPCRELX", "R_X86_64_REX_GOTPCRELX")
 
 
@@ -60,6 +63,9 @@ def add_const(v, c):
     return TOP
 
 
+BITOPS = {"CMOV64rr", "CMOV32rr", "MOV64rr", "MOV32rr", "AND64ri8", "AND64ri32", "AND32ri8", "AND32ri", "SHR64ri", "SHR32ri", "SHL64ri", "SHL32ri"}
+
+
 class Summary(object):
     """What a caller may assume about a direct callee."""
     __slots__ = ("clobbers", "rsp_ok", "conformant", "name", "vec_written", "noreturn")
@@ -96,11 +102,18 @@ class FuncResult(object):
 
 
 class Interp(object):
-    def __init__(self, lib, summary_of, keep_regs=False):
-        """summary_of(target) -> Summary for ('func', key) / ('ext', name) targets."""
+    def __init__(self, lib, summary_of, keep_regs=False, entry_facts=None):
+        """summary_of(target[, ctx]) -> Summary for ('func', key) / ('ext', name) targets.
+        entry_facts: {reg: (known_zero_mask, known_nonzero)} assumed at entry (context of a call site)."""
         self.lib = lib
         self.summary_of = summary_of
         self.keep_regs = keep_regs
+        self.entry_facts = entry_facts
+        try:
+            import inspect
+            self._ctx_ok = len(inspect.signature(summary_of).parameters) >= 2
+        except (TypeError, ValueError):
+            self._ctx_ok = False
 
     # ---- helpers
     def val(self, regs, r):
@@ -123,6 +136,13 @@ class Interp(object):
         if p is None:
             return
         w = WIDTH[r]
+        if "B:" + p in regs:
+            regs["B:" + p] = (HIGH32, False) if w == 32 else NOBITS if w == 64 else (regs["B:" + p][0] & ~0xFFFF, False)
+            if v[0] == "const":
+                c = v[1] & (M64 if w == 64 else 0xFFFFFFFF)
+                regs["B:" + p] = (~c & M64, c != 0)
+            if regs.get("ZFSRC") == p:
+                regs["ZFSRC"] = None
         if w >= 32:
             if w == 32 and v[0] not in ("const", "der", "top"):
                 rs = roots(v)
@@ -179,6 +199,11 @@ class Interp(object):
         res = FuncResult(f)
         init_regs = {r: ("init", r, 0) for r in G64}
         init_regs["RSP"] = ("sp", 0)
+        for r in G64:
+            init_regs["B:" + r] = NOBITS
+        init_regs["ZFSRC"] = None
+        for r, fact in (self.entry_facts or {}).items():
+            init_regs["B:" + r] = fact
         states = {f.entry: (init_regs, {})}
         work = [f.entry]
         inwork = {f.entry}
@@ -195,7 +220,11 @@ class Interp(object):
             regs = dict(regs)
             stack = dict(stack)
             self.block(f, b, regs, stack, None)
+            out_regs = regs
             for s in f.succ.get(b, []):
+                regs = self.edge_refine(f, b, s, out_regs)
+                if regs is None:
+                    continue          # edge proved infeasible (branch on a value known to be non-zero)
                 if s not in states:
                     states[s] = (dict(regs), dict(stack))
                     if s not in inwork:
@@ -212,6 +241,14 @@ class Interp(object):
                             if r == "RSP":
                                 rsp_conflict[s] = (oregs[r], regs[r])
                         nregs[r] = j
+                        ob, nb = oregs["B:" + r], regs["B:" + r]
+                        jb = (ob[0] & nb[0], ob[1] and nb[1])
+                        if jb != ob:
+                            changed = True
+                        nregs["B:" + r] = jb
+                    nregs["ZFSRC"] = oregs["ZFSRC"] if oregs["ZFSRC"] == regs["ZFSRC"] else None
+                    if nregs["ZFSRC"] != oregs["ZFSRC"]:
+                        changed = True
                     nstack = {}
                     for k, v in ostack.items():
                         w = stack.get(k)
@@ -354,6 +391,99 @@ class Interp(object):
                     res.findings.append(("R19.4", "store-above-frame", "store to [entry rsp %+d] (%d bytes): the return address / caller frame is written" % (av[1], size or 0), i.addr))
 
     def step(self, f, i, regs, stack, res):
+        """Value transfer (_step) followed by the known-bits / zero-flag-source bookkeeping."""
+        if "B:RAX" not in regs:
+            return self._step(f, i, regs, stack, res)
+        op = i.op
+        ob = None
+        dst = None
+        if op in BITOPS and i.ops and i.ops[0][0] == "r" and i.ops[0][1] in PARENT:
+            dst = PARENT[i.ops[0][1]]
+            srcreg = None
+            if op in ("MOV64rr", "MOV32rr"):
+                srcreg = PARENT.get(i.reg(1))
+            ob = regs["B:" + (srcreg or dst)] if (srcreg or dst) else NOBITS
+            if op in ("CMOV64rr", "CMOV32rr"):
+                s2 = PARENT.get(i.reg(2))
+                o2 = regs["B:" + s2] if s2 else NOBITS
+                ob = (ob[0] & o2[0], ob[1] and o2[1])
+        zsrc_before = regs.get("ZFSRC")
+        self._step(f, i, regs, stack, res)
+        if i.is_call():
+            for r in G64:
+                if regs[r] is TOP or regs[r][0] == "top":
+                    regs["B:" + r] = NOBITS
+            regs["ZFSRC"] = None
+            return
+        if dst is not None and ob is not None:
+            w32 = WIDTH[i.ops[0][1]] == 32
+            z, nz = ob
+            if op in ("MOV64rr", "MOV32rr", "CMOV64rr", "CMOV32rr"):
+                nb = (z | (HIGH32 if w32 else 0), nz if not w32 else (nz and (z & HIGH32) == HIGH32))
+            elif op.startswith("AND"):
+                imm = i.imm(2)
+                m = imm & M64 if not w32 else imm & 0xFFFFFFFF
+                nb = ((z | (~m & M64)) & M64, False)
+            elif op.startswith("SHR"):
+                k = (i.imm(2) or 0) & 63
+                lowmask = (1 << k) - 1
+                z2 = z | (HIGH32 if w32 else 0)
+                nb = (((z2 >> k) | (M64 & ~(M64 >> k))) & M64, nz and (z2 & lowmask) == lowmask)
+            elif op.startswith("SHL"):
+                k = (i.imm(2) or 0) & 63
+                width = 32 if w32 else 64
+                topmask = ((1 << k) - 1) << (width - k) if k else 0
+                z2 = z | (HIGH32 if w32 else 0)
+                nzn = nz and (z2 & topmask) == topmask
+                nb = ((((z2 << k) | ((1 << k) - 1)) & (0xFFFFFFFF if w32 else M64)) | (HIGH32 if w32 else 0), nzn)
+            else:
+                nb = NOBITS
+            regs["B:" + dst] = nb
+        # zero-flag source
+        if "EFLAGS" in i.idefs or "EFLAGS" in i.explicit_defs():
+            z = None
+            if op.startswith(("AND", "OR", "XOR", "ADD", "SUB", "SHL", "SHR", "SAR", "INC", "DEC", "NEG")) and i.ndefs >= 1 and i.ops[0][0] == "r" and i.ops[0][1] in PARENT and i.mem < 0:
+                shift = op.startswith(("SHL", "SHR", "SAR"))
+                cnt_ok = True
+                if shift:
+                    if op.endswith("CL"):
+                        cnt_ok = False                      # a count of 0 leaves the flags unchanged
+                    elif op.endswith("ri"):
+                        cnt_ok = len(i.ops) > 2 and i.ops[2][0] == "i" and (i.ops[2][1] & 63) != 0
+                if cnt_ok and WIDTH[i.ops[0][1]] >= 32:
+                    z = PARENT[i.ops[0][1]]
+            elif op in ("TEST64rr", "TEST32rr") and i.reg(0) == i.reg(1):
+                z = PARENT[i.reg(0)] if WIDTH[i.reg(0)] == 64 or (regs["B:" + PARENT[i.reg(0)]][0] & HIGH32) == HIGH32 else None
+            elif op in ("CMP64ri8", "CMP64ri32", "CMP32ri8", "CMP32ri") and i.imm(1) == 0 and i.reg(0) in PARENT:
+                z = PARENT[i.reg(0)] if WIDTH[i.reg(0)] == 64 or (regs["B:" + PARENT[i.reg(0)]][0] & HIGH32) == HIGH32 else None
+            regs["ZFSRC"] = z
+
+    def edge_refine(self, f, b, s, regs):
+        """State on the edge b -> s; None when the edge cannot be taken."""
+        if "ZFSRC" not in regs:
+            return regs
+        last = f.blocks[b][-1]
+        if not last.is_cond() or regs.get("ZFSRC") is None or len(last.ops) < 2:
+            return regs
+        cc = last.imm(1)
+        if cc not in (4, 5):
+            return regs
+        r = regs["ZFSRC"]
+        tgt, fall = last.branch_target(), last.next
+        if tgt == fall:
+            return regs
+        zero_edge = tgt if cc == 4 else fall
+        z, nz = regs["B:" + r]
+        out = dict(regs)
+        if s == zero_edge:
+            if nz:
+                return None
+            out["B:" + r] = (M64, False)
+        else:
+            out["B:" + r] = (z, True)
+        return out
+
+    def _step(self, f, i, regs, stack, res):
         op = i.op
         # ---------------- control
         if i.is_ret():
@@ -387,7 +517,11 @@ class Interp(object):
             if res is not None:
                 res.calls.append((i, tgt))
                 res.callargs.append((i, tgt, {r: regs[r] for r in ("RDI", "RSI", "RDX", "RCX", "R8", "R9")}))
-            sm = self.summary_of(tgt) if tgt else SYSV
+            if tgt and self._ctx_ok and "B:RSI" in regs:
+                ctx = tuple((r, regs["B:" + r]) for r in ("RDI", "RSI", "RDX", "RCX", "R8", "R9", "R10") if regs["B:" + r] != NOBITS)
+                sm = self.summary_of(tgt, ctx)
+            else:
+                sm = self.summary_of(tgt) if tgt else SYSV
             if sm is None:
                 sm = SYSV
             # the return address slot
